@@ -57,6 +57,8 @@ def _datasets(d, full):
     pts = list(itertools.product(lat, repeat=d))
     if d == 3:
         pts = list(itertools.product([0.0, 0.25, 0.3, 0.77], repeat=3))[::3]
+    if d >= 4:      # d >= 4: the system matrix is the object of interest; a few samples (grid line, cell interior, boundary) for the right-hand side
+        pts = list(itertools.product([0.0, 0.25, 0.3, 0.77], repeat=d))[::37][:8]
     sets = [[p] for p in pts]
     sub = list(itertools.product([0.25, 0.3, 0.77], repeat=d))[: 9]
     sets += [[p, q] for p, q in itertools.combinations(sub, 2)]
@@ -299,9 +301,13 @@ def run_case(case):
 def cases(tier):
     q = tier == "quick"
     out = []
-    for d, L in ((1, 4), (2, 3), (3, 2)):
-        for lv in itertools.product(range(1, L + 1), repeat=d):
-            if d == 3 and q and sorted(lv) not in ([1, 1, 2], [1, 2, 2], [1, 1, 1]):
+    lvs = [lv for d, L in ((1, 4), (2, 3), (3, 2 if q else 3)) for lv in itertools.product(range(1, L + 1), repeat=d)]
+    # level >= 2 in three and four dimensions at once (every pair of dimensions has interacting neighbours), anisotropic mixes
+    lvs += [(1, 1, 1, 1), (2, 2, 1, 2), (1, 2, 2, 2), (2, 1, 2, 1)] + ([] if q else [(2, 2, 2, 2), (3, 2, 2, 2), (2, 2, 3, 1), (1, 1, 1, 1, 1), (2, 2, 2, 1, 2)])
+    for lv in lvs:
+        d = len(lv)
+        if True:
+            if d == 3 and q and sorted(lv) not in ([1, 1, 2], [1, 2, 2], [1, 1, 1], [2, 2, 2]):
                 continue
             for lam in (0.0, 0.1):
                 for lump in (False, True):
